@@ -1,5 +1,6 @@
 import CueVerif.Driver.Proto
 import CueVerif.Model.Yaml
+import CueVerif.Model.YamlPrint
 namespace CueVerif.Driver.C11
 open CueVerif CueVerif.Driver CueVerif.Yaml
 
@@ -69,6 +70,26 @@ def handle (ws : List String) : String :=
       let e := emitBlock n bs
       if blockIllIndented e.2 then "err" else hex (parseBlock e.1 e.2)
     | _, _ => "bad-op"
+  | ["blocktext", ind, s] =>
+    -- the bytes Encode prints for {k: <literal block of s>} (padding stripped)
+    match ind.toNat?, unhex s with
+    | some n, some bs => hex (printedBlockDoc (b "k") n bs)
+    | _, _ => "bad-op"
+  | ["strip", d] =>
+    match unhex d with
+    | some bs => hex (stripBlankLinePadding bs)
+    | none => "bad-op"
+  | ["sq", s] =>
+    match unhex s with
+    | some bs => hex (singleQuoted bs)
+    | none => "bad-op"
+  | ["flow", s] =>
+    -- a string the library leaves plain, as an element of a flow sequence
+    match unhex s with
+    | some bs => match quoteFlowUnsafe bs with
+      | some q => hex q
+      | none => hex bs
+    | none => "bad-op"
   | _ => "bad-op"
 
 end CueVerif.Driver.C11
